@@ -77,13 +77,15 @@ type SpecSet struct {
 	Immutable map[string]bool    // "pkg.Type": never written outside its defining packages (checked by inventory)
 	Frozen    map[string]bool    // "pkg.Type": fields written only by the function that allocates the object (checked by inventory)
 	GhostVars map[string]string  // "pkg.name" -> type: a ghost constant (e.g. "the VM of this execution")
+	MapRanges map[string]*MapRangeDecl // "pkg.fn#k" -> declared class of a range-over-map site
+	Nondet    map[string]bool          // "pkg.fn callee": allowed call to a nondeterministic source
 	Errors    []string
 	Files     []string
 }
 
 var clauseKw = map[string]bool{"func": true, "method": true, "closure": true, "requires": true, "ensures": true, "modifies": true,
 	"loop": true, "pure": true, "props": true, "pred": true, "external": true, "iface": true, "functype": true, "ghost": true,
-	"trusted": true, "helper": true, "panics": true, "table": true, "fieldinv": true, "eleminv": true, "typeinv": true, "globalinv": true, "immutable": true, "frozen": true, "ghostconst": true, "assumes": true, "decreases": true, "assert": true, "fn": true, "nopanic": true}
+	"trusted": true, "helper": true, "panics": true, "table": true, "fieldinv": true, "eleminv": true, "typeinv": true, "globalinv": true, "immutable": true, "frozen": true, "ghostconst": true, "assumes": true, "decreases": true, "assert": true, "fn": true, "nopanic": true, "maprange": true, "nondet": true}
 
 var reParamList = regexp.MustCompile(`^([^\s(]+|\([^)]*\)\.[^\s(]+)\s*(?:\(([^)]*)\))?\s*(?:\(([^)]*)\))?\s*$`)
 
@@ -102,7 +104,7 @@ func splitNames(s string) []string {
 }
 
 func loadSpecs(repo string, pkgDirs map[string]string) *SpecSet {
-	ss := &SpecSet{Contracts: map[string]*Contract{}, Preds: map[string]*Pred{}, FieldInvs: map[string]string{}, TypeInvs: map[string]*Clause{}, Immutable: map[string]bool{}, Frozen: map[string]bool{}, GhostVars: map[string]string{}}
+	ss := &SpecSet{Contracts: map[string]*Contract{}, Preds: map[string]*Pred{}, FieldInvs: map[string]string{}, TypeInvs: map[string]*Clause{}, Immutable: map[string]bool{}, Frozen: map[string]bool{}, GhostVars: map[string]string{}, MapRanges: map[string]*MapRangeDecl{}, Nondet: map[string]bool{}}
 	var names []string
 	for n := range pkgDirs {
 		names = append(names, n)
@@ -266,6 +268,25 @@ func (ss *SpecSet) parseFile(pkg, path, data string) {
 				continue
 			}
 			ss.GhostVars[pkg+"."+f[0]] = f[1]
+		case "maprange":
+			d, err := parseMapRangeDecl(pkg, rc.text)
+			if err != nil {
+				ss.errf(path, rc.line, "%v", err)
+				continue
+			}
+			d.File, d.Line = path, rc.line
+			ss.MapRanges[d.Key] = d
+		case "nondet":
+			t := rc.text
+			if i := strings.Index(t, " : "); i >= 0 {
+				t = t[:i]
+			}
+			f := strings.Fields(t)
+			if len(f) != 2 {
+				ss.errf(path, rc.line, "nondet <fn> <callee> : <why>")
+				continue
+			}
+			ss.Nondet[pkg+"."+f[0]+" "+f[1]] = true
 		case "frozen":
 			for _, f := range strings.Fields(rc.text) {
 				ss.Frozen[pkg+"."+f] = true
@@ -337,7 +358,7 @@ func (ss *SpecSet) parseFile(pkg, path, data string) {
 				}
 			case "modifies":
 				cur.HasMod = true
-				for _, t := range strings.Split(rc.text, ",") {
+				for _, t := range splitTopLevel(rc.text) {
 					t = strings.TrimSpace(t)
 					if t != "" && t != "nothing" {
 						cur.Modifies = append(cur.Modifies, t)
@@ -400,4 +421,24 @@ func (ss *SpecSet) parseFile(pkg, path, data string) {
 			}
 		}
 	}
+}
+
+// splitTopLevel splits on commas that are not inside parentheses or brackets.
+func splitTopLevel(s string) []string {
+	var out []string
+	depth, start := 0, 0
+	for i, r := range s {
+		switch r {
+		case '(', '[':
+			depth++
+		case ')', ']':
+			depth--
+		case ',':
+			if depth == 0 {
+				out = append(out, s[start:i])
+				start = i + 1
+			}
+		}
+	}
+	return append(out, s[start:])
 }
